@@ -48,6 +48,10 @@ import (
 	"go.uber.org/zap"
 )
 
+type nopCloseStore struct{ storage.Store }
+
+func (nopCloseStore) Close() error { return nil }
+
 // HarnessError is panicked for anything that is the simulator's own trouble
 // (never a property violation). The driver maps it to exit code 2.
 type HarnessError struct{ Msg string }
@@ -275,6 +279,9 @@ type WorldOpts struct {
 	N         int
 	Label     string // key derivation label
 	P2PSigExt bool
+	// Prepare, if set, pre-populates the store before the chain is created
+	// (contract states and storages restored from a network dump).
+	Prepare func(s storage.Store)
 }
 
 // NewWorld creates a chain with an n-member committee (all of them validators)
@@ -313,7 +320,17 @@ func newBareWorld(o WorldOpts) *World {
 		StandbyCommittee: sc, ValidatorsCount: uint32(n), VerifyTransactions: true,
 		P2PSigExtensions: o.P2PSigExt,
 	}}
-	bc, err := core.NewBlockchain(storage.NewMemoryStore(), cfg, zap.NewNop())
+	var store storage.Store = storage.NewMemoryStore()
+	if o.Prepare != nil {
+		o.Prepare(store)
+		// contracts put into the store behind the ledger's back become visible
+		// only after the chain was run once (neo-go#2926, same as tests/migration)
+		bc0, err := core.NewBlockchain(nopCloseStore{store}, cfg, zap.NewNop())
+		must(err)
+		go bc0.Run()
+		bc0.Close()
+	}
+	bc, err := core.NewBlockchain(store, cfg, zap.NewNop())
 	must(err)
 	go bc.Run()
 	w := &World{BC: bc, N: n, Privs: privs, Pubs: pubs, Magic: cfg.Magic, C: map[string]*Deployed{}, Opts: o, record: RecordJournal, txMeta: map[*transaction.Transaction]*JTx{}}
